@@ -1137,6 +1137,15 @@ class SymX:
                         st.pc = st.pc + (c,)
             self._assign(target, src[2], st, None)
             return
+        if src[0] == "call" and src[1] == ("builtin", "map") and len(src[2]) >= 2 and not src[3] and src[2][0][0] in ("cls", "fn", "lambda", "attr", "partial", "bound"):
+            operands = []
+            for a in src[2][1:]:
+                if a[0] == "call" and a[1] == ("lib", "itertools.repeat") and len(a[2]) == 1:
+                    operands.append(a[2][0])
+                else:
+                    operands.append(("elem", a, lid) if len(src[2]) == 2 else ("idx", ("elem", ("call", ("builtin", "zip"), tuple(x for x in src[2][1:] if not (x[0] == "call" and x[1] == ("lib", "itertools.repeat"))), ()), lid), const(len([o for o in operands if o[0] == "idx"]))))
+            self._assign(target, self._apply(src[2][0], tuple(operands), (), st, None), st, None)
+            return
         if src[0] == "call" and src[1] == ("builtin", "zip") and isinstance(target, (ast.Tuple, ast.List)) and len(target.elts) == len(src[2]):
             for i, el in enumerate(target.elts):
                 self._assign(el, ("idx", ("elem", src, lid), const(i)), st, None)
@@ -1216,6 +1225,29 @@ class SymX:
 
     def _yield(self, node: ast.AST, st: State) -> State:
         fr = self.frame
+        if isinstance(node, ast.YieldFrom) and fr.on_yield is not None:
+            # `yield from gen(...)`: every value of the inner generator goes to the same consumer
+            gen = self._generator_callee(node.value, st)
+            if gen is not None:
+                callee, call = gen
+                recv, args, kwargs = self._call_operands(call, st)
+                _res, out = self._enter(callee, call, recv, args, kwargs, st, on_yield=fr.on_yield)
+                out.alive = True
+                return out
+            inner = self.eval(node.value, st)
+            if inner[0] == "yields":
+                saved = st.pc
+                for g, v_ in inner[1]:
+                    st.pc = saved + ((g,) if g != TRUE else ())
+                    st = fr.on_yield(v_, st)
+                    st.alive = True
+                st.pc = saved
+                return st
+            lid = self.fresh()
+            probe = ast.Name(id="<yielded>", ctx=ast.Store())
+            self._bind_iteration(probe, inner, st, lid)
+            v = st.env.pop("<yielded>")
+            return fr.on_yield(v, st)
         if isinstance(node, ast.YieldFrom):
             v: Term = ("elem", self.eval(node.value, st), self.fresh())
         else:
